@@ -34,12 +34,12 @@ func c16Families(quick bool) c16Params {
 	return c16Params{
 		fams: []family{
 			{Name: "plain", Space: gen.NewSpace(2, 2, 2, 2, false)},
-			{Name: "plain-l3", Space: gen.NewSpace(2, 2, 2, 3, false)},
-			{Name: "plain3", Space: gen.NewSpace(3, 2, 2, 2, false), Limit: 20000000},
+			{Name: "plain-l3", Space: gen.NewSpace(2, 2, 2, 3, false), Limit: 3000000},
+			{Name: "plain3", Space: gen.NewSpace(3, 2, 2, 2, false), Limit: 3000000},
 			{Name: "sugar", Space: gen.NewSpace(2, 2, 2, 2, false), Sugar: true},
 			{Name: "error", Space: gen.NewSpace(2, 2, 2, 2, true)},
 		},
-		L: 8, Lerr: 5,
+		L: 7, Lerr: 5,
 	}
 }
 
